@@ -239,7 +239,7 @@ class Check(DiffCheck):
         mixed = any(len(v) > 1 for v in ds.values())
         ooo_mixed = any(len(v) > 1 and decls[i][0] == 'sem' and len(decls[i][1]) > 1 and decls[i][1][1] == 0 for i, v in ds.items() if i < len(decls))
         if kinds == {'hang'}: return 'F9' if ooo_mixed else None
-        if kinds == {'barge'}: return 'F21' if mixed else None
+        if kinds == {'barge'}: return 'F35' if mixed else None
         return None
 
     def neighbours(self, case, rng):
